@@ -145,7 +145,7 @@ static int count_fds(void)
     return n;
 }
 
-static unsigned long long n_usable, n_prim_used, n_eval, n_success, n_permanent, n_os_calls, n_prng, n_long, n_fd_census;
+static unsigned long long n_count_differs, n_usable, n_prim_used, n_eval, n_success, n_permanent, n_os_calls, n_prng, n_long, n_fd_census;
 static int want_prim = 0;
 
 static void run_script(const args_t *a, long idx, const unsigned char *pre, long npre, int all_eintr, int end, int via_prng)
@@ -213,8 +213,9 @@ static void run_script(const args_t *a, long idx, const unsigned char *pre, long
         }
     }
     n_os_calls += (unsigned long long)S.pos;
-    if (S.pos != expect_calls)
-        emit_viol(S.pos < expect_calls ? "trng-stops-retrying" : "trng-extra-os-calls", "%ld OS entropy calls, expected exactly %ld (prefix %ld + final)", S.pos, expect_calls, npre);
+    /* The number of OS calls is recorded, not judged: a conforming source may probe or re-read.  Giving up early shows as a
+     * wrong status / buffer above, never returning shows as "trng-spins". */
+    if (S.pos != expect_calls) ++n_count_differs;
     fds1 = count_fds();
     ++n_fd_census;
     if (fds0 >= 0 && fds1 != fds0) emit_viol("fd-leak", "open descriptors before %d, after %d", fds0, fds1);
@@ -248,7 +249,7 @@ int main(int argc, char **argv)
       for (k = 0; k < 2; ++k) for (e = 0; e < 2; ++e, ++idx) if (mine(&a, idx)) { run_script(&a, idx, NULL, LONGS[k], 1, e ? E_EPERM : E_OK, 0); ++n_long; } }
     emit_stat("evaluations", n_eval); emit_stat("scripts_ending_in_success", n_success); emit_stat("scripts_ending_in_permanent_error", n_permanent);
     emit_stat("os_entropy_calls_observed", n_os_calls); emit_stat("scripts_through_prng_init", n_prng); emit_stat("long_prefix_scripts", n_long);
-    emit_stat("fd_census_comparisons", n_fd_census); emit_stat("prng_usability_runs_after_fault", n_usable);
+    emit_stat("scripts_where_os_call_count_differs_from_script_length", n_count_differs); emit_stat("fd_census_comparisons", n_fd_census); emit_stat("prng_usability_runs_after_fault", n_usable);
     emit_stat("scripts_that_reached_the_variants_primitive", n_prim_used);
     if (n_eval > 10 && n_prim_used == 0 && !g_nviol) {      /* the instrument never saw the call it is supposed to script */
         fprintf(stderr, "build variant %s never called its OS primitive: harness does not reach the code\n", a.mode);
